@@ -21,9 +21,15 @@ def gen_case(seed, k, cap):
         ts = ts + ["PartialEq"] + (["Eq"] if rng.random() < 0.5 or mode != "PartialOrd" else [])
     ts = ts + rng.sample(["Debug", "Clone", "Hash"], rng.randint(0, 1))
     rng.shuffle(ts)
-    td = G.random_type(rng, ts, G.Opts(p_attr=0.9, max_fields=5, max_variants=4, min_fields=0, p_partial=0.5))
+    edge = rng.random() < 0.2
+    if edge:
+        # rank-edge flavour: many fields, ignored ones in front, explicit ranks inside the range of the default ranks
+        td = G.random_type(rng, ts, G.Opts(p_attr=0.9, max_fields=6, max_variants=3, min_fields=4, p_partial=0.2, p_rank_edge=1.0,
+                                           p_uniform=0.6))
+    else:
+        td = G.random_type(rng, ts, G.Opts(p_attr=0.9, max_fields=5, max_variants=4, min_fields=0, p_partial=0.5))
     text = S.render(td, rng_for(seed, PROP, "spell", k), extras=False)
-    vals = S.values(td, cap, rng)
+    vals = S.values(td, cap * 3 if edge else cap, rng)
     drive = []
     if "Ord" in td.traits:
         drive.append("        %sdrive_cmp(\"c%d\", %d, &mk);" % (S.RT, k, len(vals)))
@@ -92,6 +98,13 @@ def judge(chk, c, obs, dropped):
     table = {}
     mev = 0
     for op, i, j, res, ev in o.recs:
+        if op in ("pcmp", "pcmpself") and len(res) > 1:
+            r = BH.ORD[res[0]]
+            want_ops = "0000" if r is None else "%d%d%d%d" % (r < 0, r <= 0, r > 0, r >= 0)
+            if res[1] != want_ops:
+                chk.violation("operators|%s" % td.kind, "the operators <, <=, >, >= give %s although partial_cmp gives %s (expected %s)\n"
+                              "a = %s\nb = %s\n%s" % (res[1], res[0], want_ops, c.vals[i], c.vals[j if j >= 0 else i], c.text), files)
+                return
         if op in ("cmpself", "pcmpself"):
             want = expected(td, c.vals[i], c.vals[i], key, key != "Ord")
             if BH.ORD[res[0]] != want:
